@@ -649,3 +649,35 @@ package vm
 //@   modifies nothing
 //@   ensures[C15.empty] result == (evmCodeHash[layer(d.currentCtx)][addrBytes(address)] == zero(type(common.Hash)) && (forall den string :: bankBal[layer(d.currentCtx)][addrBytes(address)][den] == 0) && acctSeq[layer(d.currentCtx)][addrBytes(address)] == 0 && (forall k common.Hash :: evmStorage[layer(d.currentCtx)][address][k] == zero(type(common.Hash))))
 //@   panics never
+
+// ---------------------------------------------------------------------------------------------
+// state_db.go — CommitMultiStore, the concrete method (C03 flush order, C15 destroy loop, C04 supply).
+// The interface-level summary `(d CStateDB) CommitMultiStore` above is what x/evm/keeper uses; it is NOT derived from
+// this contract (the sdb* view it talks about is not defined over cStateDb's fields) and stays trusted.
+// A-vm1: the test-only package variable preventCommit is false.
+// ---------------------------------------------------------------------------------------------
+
+// EIP-161 emptiness of address a as seen through layer l (what EvmKeeper.IsEmptyAccount decides)
+//@ ghost macro emptyAt(l int, a common.Address) bool = evmCodeHash[l][addrBytes(a)] == zero(type(common.Hash)) && (forall den string :: bankBal[l][addrBytes(a)][den] == 0) && acctSeq[l][addrBytes(a)] == 0 && (forall k common.Hash :: evmStorage[l][a][k] == zero(type(common.Hash)))
+// nothing about address a changed in layer l since the call started
+//@ ghost macro acctUntouched(l int, a common.Address) bool = acctExists[l][addrBytes(a)] == old(acctExists[l][addrBytes(a)]) && acctSeq[l][addrBytes(a)] == old(acctSeq[l][addrBytes(a)]) && acctTag[l][addrBytes(a)] == old(acctTag[l][addrBytes(a)]) && acctVestEnd[l][addrBytes(a)] == old(acctVestEnd[l][addrBytes(a)]) && bankBal[l][addrBytes(a)] == old(bankBal[l][addrBytes(a)]) && evmCodeHash[l][addrBytes(a)] == old(evmCodeHash[l][addrBytes(a)]) && evmStorage[l][a] == old(evmStorage[l][a])
+// why address a may have been destroyed by this commit
+//@ ghost macro destroyJustified(d *cStateDb, a common.Address, deleteEmptyObjects bool) bool = (a in d.touched) && ((a in d.selfDestructed) || (deleteEmptyObjects && old(emptyAt(layer(d.currentCtx), a)))) && !old(acctProtectedAt(layer(d.currentCtx), addrBytes(a), hdrTimeUnix(hdr(d.currentCtx))))
+
+//@ func (d *cStateDb) CommitMultiStore(deleteEmptyObjects bool) (err error)
+//@   requires sdbInv(d) && !preventCommit && d.bankKeeper != nil && d.evmKeeper != nil
+//@   modifies d.committed, views, evlog
+//@   ensures[C03.commit_flushes_innermost_to_original] err == nil && d.committed && viewEq(layer(d.originalCtx), layer(d.currentCtx))
+//@   ensures[C15.commit_destroys_only_marked_or_empty] forall a common.Address :: acctUntouched(layer(d.currentCtx), a) || destroyJustified(d, a, deleteEmptyObjects)
+//@   ensures[C04.commit_supply] forall den string :: bankSupply[layer(d.currentCtx)][den] <= old(bankSupply[layer(d.currentCtx)][den])
+//@   panics any
+//@ loop 1
+//@   modifies view(layer(d.currentCtx)), evlog[payload(d.currentCtx.EventManager())]
+//@   invariant[C15.commit_loop_justified] forall a common.Address :: acctUntouched(layer(d.currentCtx), a) || (visited[a] && destroyJustified(d, a, deleteEmptyObjects))
+//@   invariant[C04.commit_loop_supply] forall den string :: bankSupply[layer(d.currentCtx)][den] <= old(bankSupply[layer(d.currentCtx)][den])
+//@ loop 2
+//@   modifies views, evlog
+//@   invariant[C03.commit_flush_index] -1 <= i && i < len(d.snapshots)
+//@   invariant[C03.commit_flush_progress] viewEq((i >= 0 ? layer(d.snapshots[i].snapshotCtx) : layer(d.originalCtx)), layer(d.currentCtx))
+//@   invariant[C15.commit_flush_keeps_justified] forall a common.Address :: acctUntouched(layer(d.currentCtx), a) || destroyJustified(d, a, deleteEmptyObjects)
+//@   invariant[C04.commit_flush_keeps_supply] forall den string :: bankSupply[layer(d.currentCtx)][den] <= old(bankSupply[layer(d.currentCtx)][den])
